@@ -206,6 +206,15 @@ class ListGen(object):
             n = lf["size"] if not lf["randsz"] else rnd.randint(0, 2)
             self.wit[lf["name"]] = [rnd.randint(*type_range(lf["elem"]["w"], lf["elem"]["sg"])) for _ in range(n)]
 
+        # pre_randomize assigns a non-random scalar (the solver, the size bounds of random-size lists included, must see it)
+        pre = []
+        for f in self.scalars:
+            if not f["rand"] and rnd.random() < 0.5:
+                v = rnd.randint(*type_range(f["w"], f["sg"]))
+                pre.append(["set", [f["name"]], v])
+                self.wit[f["name"]] = v
+        self.pre = pre
+
         def keep(mk):
             for _ in range(8):
                 st = mk()
@@ -218,12 +227,21 @@ class ListGen(object):
                 # the library refuses a random-size list whose size it cannot bound ("Max size for array ... exceeds")
                 n = len(self.wit[lf["name"]])
                 lo = rnd.randint(max(0, n - 2), n)
-                stmts.append(["expr", ["in", ["size", [lf["name"]]], [[["lit", lo], ["lit", max(n, lo + rnd.randint(0, 2))]]]]])
+                hooked = [a[1][0] for a in self.pre]
+                if hooked and rnd.random() < 0.7:
+                    # the size also bounded through a constant expression over a field pre_randomize assigns; the field is set
+                    # back to a small value between calls, so the bound the callback establishes is needed in every call
+                    fn = rnd.choice(hooked)
+                    stmts.append(["expr", ["in", ["size", [lf["name"]]], [[["lit", 0], ["lit", 4]]]]])
+                    stmts.append(["expr", ["bin", "Le", ["size", [lf["name"]]], ["bin", "Add", ["f", [fn]], ["lit", rnd.randint(0, 1)]]]])
+                    self.reset_field = fn
+                else:
+                    stmts.append(["expr", ["in", ["size", [lf["name"]]], [[["lit", lo], ["lit", max(n, lo + rnd.randint(0, 2))]]]]])
             for _ in range(rnd.randint(1, 2)):
                 stmts.append(keep(lambda: self.list_stmt(lf)))
         for _ in range(rnd.randint(0, 2)):
             stmts.append(keep(self.scalar_stmt))
-        cls = {"name": "K0", "fields": fields, "blocks": [{"name": "c0", "stmts": stmts}], "pre_randomize": [], "post_randomize": []}
+        cls = {"name": "K0", "fields": fields, "blocks": [{"name": "c0", "stmts": stmts}], "pre_randomize": self.pre, "post_randomize": []}
         ops = [{"op": "new", "var": "o", "cls": "K0"}]
         cur = {lf["name"]: lf["size"] for lf in lists}          # current lengths (the declaration keeps the initial size)
         for lf in lists:
@@ -231,6 +249,8 @@ class ListGen(object):
                 for i in range(lf["size"]):
                     ops.append({"op": "l_set", "var": "o", "path": [lf["name"]], "index": i, "value": self.wit[lf["name"]][i]})
         for _ in range(3):
+            if getattr(self, "reset_field", None) and rnd.random() < 0.7:
+                ops.append({"op": "set", "var": "o", "path": [self.reset_field], "value": rnd.choice([0, 0, 1])})
             lf = rnd.choice(lists)
             r = rnd.random()
             if r < 0.35 and not lf["randsz"] and cur[lf["name"]] < 4:
@@ -312,7 +332,7 @@ class ListGen(object):
         if r < 0.4:
             return ["expr", ["inlist", ["f", [f["name"]]], [lf["name"]]]]
         if r < 0.7:
-            return ["expr", ["bin", rnd.choice(["Lt", "Le", "Eq", "Gt"]), ["f", [f["name"]]], ["size", [lf["name"]]]]]
+            return ["expr", ["bin", rnd.choice(["Lt", "Le", "Eq", "Gt", "Ge", "Ge"]), ["f", [f["name"]]], ["size", [lf["name"]]]]]
         return ["expr", ["bin", rnd.choice(["Lt", "Ne", "Ge"]), ["f", [f["name"]]], self.lit(f["w"], f["sg"])]]
 
     def list_stmt(self, lf):
@@ -320,6 +340,11 @@ class ListGen(object):
         w, sg = lf["elem"]["w"], lf["elem"]["sg"]
         name = lf["name"]
         r = rnd.random()
+        nonrand = [f for f in self.scalars if not f["rand"]]
+        if lf["randsz"] and nonrand and r < 0.3:
+            # the size bounded through a constant expression over a non-random field (which pre_randomize may assign)
+            f = rnd.choice(nonrand)
+            return ["expr", ["bin", "Le", ["size", [name]], ["bin", "Add", ["f", [f["name"]]], ["lit", rnd.randint(0, 2)]]]]
         if lf["randsz"] and r < 0.5:
             lo = rnd.randint(0, 2)
             return ["expr", ["in", ["size", [name]], [[["lit", lo], ["lit", lo + rnd.randint(0, 2)]]]]]
@@ -327,14 +352,20 @@ class ListGen(object):
             body = []
             for _ in range(rnd.randint(1, 2)):
                 q = rnd.random()
-                if q < 0.35:
+                if q < 0.30:
                     body.append(["expr", ["bin", rnd.choice(["Lt", "Le", "Ne", "Gt"]), ["it"], self.lit(w, sg)]])
-                elif q < 0.55:
+                elif q < 0.45:
                     body.append(["expr", ["bin", rnd.choice(["Eq", "Ne", "Ge"]), ["sub", [name], 0], ["bin", "Add", ["idxvar"], ["lit", rnd.randint(0, 2)]]]])
-                elif q < 0.8:
+                elif q < 0.6:
                     # neighbours, guarded by the index (the condition is folded during expansion)
                     body.append(["if", ["bin", "Gt", ["idxvar"], ["lit", 0]],
                                  [["expr", ["bin", rnd.choice(["Le", "Lt", "Ne"]), ["sub", [name], -1], ["it"]]]], [], None])
+                elif q < 0.8:
+                    # a condition on the index alone, at and around the boundaries, with and without an else branch
+                    cond = ["bin", rnd.choice(["Le", "Le", "Ge", "Ge", "Lt", "Gt", "Eq", "Ne"]), ["idxvar"], ["lit", rnd.randint(0, 2)]]
+                    then = [["expr", ["bin", rnd.choice(["Lt", "Le", "Ne", "Gt"]), ["it"], self.lit(w, sg)]]]
+                    els = [["expr", ["bin", rnd.choice(["Lt", "Ge", "Ne", "Eq"]), ["it"], self.lit(w, sg)]]] if rnd.random() < 0.6 else None
+                    body.append(["if", cond, then, [], els])
                 else:
                     f = rnd.choice(self.scalars)
                     body.append(["expr", ["bin", rnd.choice(["Le", "Ne", "Lt"]), ["it"], ["f", [f["name"]]]]])
